@@ -263,13 +263,16 @@ def relevant_pconds(progs, cap=4):
     return out[:cap]
 
 
-def observers_required(fit_prog, observer_progs):
+def observers_required(fit_prog, observer_progs, all_progs=None):
     """attributes an observer (any public non-fit method) reads, or lazily writes: `fit` must have
-    rewritten (or deleted) each of them.  Attributes that NO method writes (under the hyper-parameter
-    valuation at hand) cannot hold anything stale and are excluded: they belong to the external parent
-    class (trusted: the parent's fit rewrites its own) or are never set."""
+    rewritten (or deleted) each of them.  Attributes that NO method writes cannot hold anything stale and
+    are excluded: they belong to the external parent class (trusted: the parent's fit rewrites its own) or
+    are never set.  "No method writes" is decided on `all_progs`, the UNSPECIALISED programs: hyper-parameters
+    may be changed between two fits (set_params), so an attribute that `fit` writes only under another
+    valuation of the hyper-parameter conditions can be left over from an earlier fit; an observer that reads
+    it under the current valuation must find it rewritten or deleted by the current fit."""
     written = set()
-    for p in [fit_prog] + observer_progs:
+    for p in (all_progs if all_progs is not None else [fit_prog] + observer_progs):
         for a in sk.atoms(p):
             if a[0] in ("wattr", "dattr"):
                 written.add(a[1])
@@ -312,11 +315,55 @@ def c03_cases(repo):
             rho = dict(zip(conds, vals))
             sfit = sk.specialize(fit["prog"], rho)
             sobs = [sk.specialize(o["prog"], rho) for o in observers]
-            req, written = observers_required(sfit, sobs)
+            req, written = observers_required(sfit, sobs, [fit["prog"]] + [o["prog"] for o in observers])
             prog = sk.simplify(_drop_foreign_reads(sfit, written), ATTR_ATOMS)
             cases.append({"class": c["class"], "method": fit["method"], "rho": rho, "prog": prog,
                           "required": req, "rng": rng, "documents_seed": c["class"] in DOCUMENTED_SEED})
     return uni, classes, cases
+
+
+def fit_steps(uni, cname):
+    """public methods `fit` calls on self, transitively: steps of the fit (they build the state), not observers"""
+    out, todo = set(), list(FIT_METHODS)
+    seen = set()
+    while todo:
+        m = todo.pop()
+        if m in seen:
+            continue
+        seen.add(m)
+        r = uni.find_method(cname, m)
+        if r is None:
+            continue
+        for n in ast.walk(r[2]):
+            if isinstance(n, ast.Call) and isinstance(n.func, ast.Attribute) and isinstance(n.func.value, ast.Name) \
+                    and n.func.value.id == "self":
+                out.add(n.func.attr)
+                todo.append(n.func.attr)
+    return out
+
+
+def c03_observers(uni, classes):
+    """(class, method, ownership skeleton, names holding the fitted state) for every public method that is not `fit`
+    nor a step of it: using a fitted model must not write into its fitted attributes in place."""
+    out = []
+    for c in classes:
+        state = set()
+        for r in c["methods"]:
+            for a in sk.atoms(r["prog"]):
+                if a[0] in ("bindAlias", "bindFresh") and a[1].startswith("self.") and a[1][5:] not in c["params"]:
+                    state.add(a[1])
+                elif a[0] == "wattr":
+                    state.add("self." + a[1])
+                elif a[0] == "rattr":
+                    state |= {"self." + x for x in a[1]}
+        steps = fit_steps(uni, c["class"])
+        for r in c["methods"]:
+            m = r["method"]
+            if m.startswith(("fit", "partial_fit")) or m in steps:
+                continue
+            out.append({"class": c["class"], "method": m, "prog": sk.simplify(r["prog"], OWN_ATOMS),
+                        "state": sorted(state)})
+    return out
 
 
 def gen_c03(repo):
@@ -347,6 +394,28 @@ def gen_c03(repo):
         L.append("")
     L.append("def cases : List FitCase := [")
     L.append("  " + ",\n  ".join(names))
+    L.append("]")
+    L.append("")
+    L.append("structure Observer where")
+    L.append("  cls : String")
+    L.append("  name : String")
+    L.append("  ownProg : Prog Act       -- ownership skeleton (bind / in-place write atoms) of the method")
+    L.append("  state : List Nat          -- names bound to the fitted attributes of the instance")
+    L.append("")
+    onames = []
+    for n, ob in enumerate(c03_observers(uni, classes)):
+        loc, par, att = sk.Numbering(), sk.Numbering(), sk.Numbering()
+        op, relevant = slice_ownership(ob["prog"])
+        txt = sk.render(op, loc, par, att)
+        st = [loc(b) for b in ob["state"] if b in relevant]
+        ident = "o%d_%s_%s" % (n, ob["class"], ob["method"])
+        onames.append(ident)
+        L.append("-- %s.%s; names %s" % (ob["class"], ob["method"], {k: v for k, v in list(loc.tab.items())[:30]}))
+        L.append("def %s : Observer := { cls := %s, name := %s, ownProg := %s, state := [%s] }" % (
+            ident, lean_str(ob["class"]), lean_str(ob["method"]), txt, ", ".join(map(str, st))))
+    L.append("")
+    L.append("def observers : List Observer := [")
+    L.append("  " + ",\n  ".join(onames))
     L.append("]")
     L.append("")
     L.append("end MlVerif.Gen.C03")
@@ -393,6 +462,12 @@ def global_rng_calls(uni, cname, mname):
         seen.add(key)
         nested = {n.name: n for n in ast.walk(fn) if isinstance(n, ast.FunctionDef) and n is not fn}
         for n in ast.walk(fn):
+            # a function of the package used as a VALUE (`kmeans_single = _kmeans_single_lloyd`, a callback argument)
+            # may be called through the alias: it is reachable
+            if isinstance(n, ast.Name) and isinstance(n.ctx, ast.Load) and n.id not in nested:
+                rf = uni.resolve_function(module, n.id)
+                if rf is not None:
+                    visit_fn(rf[1], rf[0], None)
             if not isinstance(n, ast.Call):
                 continue
             f = n.func
